@@ -23,14 +23,39 @@ def oracle_lines(lines):
     if len(called) != len(queued): return '%d calls queued, %d made after the final barrier' % (len(queued), len(called))
     return None
 
-RPROGS = ['RD1D2WD3WU', 'RD1WD2D3WU/(r)', 'RD1D2D3D4D5D6WU', 'RD1BD2WU/RD5D6WU', 'RD1D2WURD3WU', 'RD1D2BD3U/(q)(r)']
+def lock_discipline(raw):
+    """program-order facts the Defer/DeferLock.v model relies on, checked on the implementation trace: every deferred call is made, and every queue's tail is
+    published, by a thread that holds rcu_defer_mutex (the drains of one queue - reclaimer, rcu_defer_barrier(), the owner's full-queue and final flushes - never
+    overlap); a queue's head is only advanced by its owner"""
+    m = re.search(r'^- dqoff (\d+) (\d+)', raw, re.M)
+    if not m: return None
+    hoff, toff = m.group(1), m.group(2)
+    held = {}
+    for l in raw.splitlines():
+        p = l.split()
+        if len(p) < 3 or not p[0].isdigit(): continue
+        t, k, loc = p[0], p[1], p[2]
+        h = held.setdefault(t, set())
+        if k == 'lock' or (k == 'trylock' and p[-1] == 'ok'): h.add(loc)
+        elif k == 'unlock': h.discard(loc)
+        elif k == 'call' and loc == 'dcall' and 'dmutex+0' not in h:
+            return 'thread %s makes the deferred call of object %s without holding rcu_defer_mutex: two drains of the same queue can overlap and make a call twice' % (t, p[3])
+        elif k in ('store', 'xchg', 'cmpxchg', 'add', 'addret', 'inc', 'dec') and loc.startswith('dq'):
+            q, off = loc[2:].split('+')
+            if off == toff and 'dmutex+0' not in h:
+                return 'thread %s publishes the tail of the queue of thread %s without holding rcu_defer_mutex' % (t, q)
+            if off == hoff and q != t:
+                return 'thread %s writes the head of the queue of thread %s (only the owner appends)' % (t, q)
+    return None
+
+RPROGS = ['RD1D2WD3WU', 'RD1WD2D3WU/(r)', 'RD1D2D3D4D5D6WU', 'RD1BD2WU/RD5D6WU', 'RD1D2WURD3WU', 'RD1D2BD3U/(q)(r)', 'RD1URD2BURD3WU', 'RD5URD6D1WU/(r)']
 def reclaimer_oracle(prog, raw):
     """exactly once, in queue order, after the grace period, by the background reclaimer without further API calls; barrier / unregister return after the calls"""
     if 'DEADLOCK' in raw: return 'stuck state: a thread waits for ever (a queued call is never made by the background reclaimer, or barrier / unregister never returns)'
     if 'STEP LIMIT' in raw: return 'live-lock: a thread waits for calls that the background reclaimer never makes (lost wake-up) - step limit reached'
     if 'ABORT' in raw or 'BUG ' in raw: return 'abnormal run: ' + raw[-300:]
     import oracles
-    so = oracles.sleeper_order(raw) or oracles.waker_order(raw)
+    so = oracles.sleeper_order(raw) or oracles.waker_order(raw) or lock_discipline(raw)
     if so: return so
     ev = [l.split() for l in raw.splitlines() if l and l[0].isdigit()]
     q = {}; made = {}; owner = {}; qtime = {}; open_ = {}; sections = []; depth = {}; qdone = {}
@@ -44,6 +69,11 @@ def reclaimer_oracle(prog, raw):
             if made[o] != q[o][:len(made[o])]: return 'calls queued by thread %s were %s, the calls made so far are %s (exactly once, in order)' % (o, q[o], made[o])
             for (tr, a, b) in sections + [(tr, a, None) for tr, a in open_.items()]:
                 if a < qtime[p[3]] and (b is None or b > i): return 'call of object %s (queued at event %d) made at event %d while the read-side section of thread %s begun at event %d is still open' % (p[3], qtime[p[3]], i, tr, a)
+        elif k == 'note' and len(p) >= 6 and p[2] == 'fn' and p[4] == 'arg':
+            # the (function, argument) pair the library passes: D<i> queued function fn_b when i & 4 else fn_a, argument (i << 4) | (i % 3 == 1)
+            a = int(p[5], 16); i0 = a >> 4
+            if p[3] != ('b' if i0 & 4 else 'a') or a != ((i0 << 4) | (1 if i0 % 3 == 1 else 0)):
+                return 'the call of object %d is made with function %s and argument %#x; queued: function %s, argument %#x' % (i0, p[3], a, 'b' if i0 & 4 else 'a', (i0 << 4) | (1 if i0 % 3 == 1 else 0))
         elif k == 'ret' and p[2] == 'lock':
             depth[t] = depth.get(t, 0) + 1
             if depth[t] == 1: open_[t] = i
@@ -70,7 +100,7 @@ def run_reclaimer(ctx):
     impl = build_scenario(ctx, 'scen_defer', 'scen_defer.c', extra_src=G.SRCS, defs=G.DEFS + ['-DURCU_VERIF_DEFER_QUEUE_SIZE=8'])
     if not impl: return
     cases = []
-    for prog in RPROGS[:4 if ctx.quick() else len(RPROGS)]:
+    for prog in ((RPROGS[:4] + RPROGS[6:]) if ctx.quick() else RPROGS):
         th = [str(i) for i in range(prog.count('/') + 1)]; rec = str(len(th)); recf = rec + chr(ord('a') + len(th))
         for v in th[:1]:
             vf = v + chr(ord('a') + int(v))
